@@ -310,6 +310,22 @@ func report(o *runOpts, prop string, frs []*FuncResult, wall float64) int {
 			finfo["undecided"] = fr.Aborted
 			undecided = append(undecided, shortKey(fr.Name)+" ["+fr.Tags+"]: "+fr.Aborted)
 		}
+		if len(fr.Unreached) > 0 {
+			finfo["unreached_blocks"] = fr.Unreached
+			allowed := 0
+			if fr.Contract != nil {
+				fmt.Sscanf(fr.Contract.Flags["deadblocks"], "%d", &allowed)
+			}
+			if len(fr.Unreached) > allowed {
+				msg := shortKey(fr.Name) + " [" + fr.Tags + "]: no feasible path reaches the code at line(s) " + strings.Join(fr.Unreached, ", ") + fmt.Sprintf(" (%d blocks, contract expects %d: contradictory precondition or callee contract? state the expected number with the contract flag deadblocks)", len(fr.Unreached), allowed)
+				if os.Getenv("GCV_STRICT") != "" {
+					// development / evidence refresh: unverified code inside a function under contract is an error
+					undecided = append(undecided, "VACUOUS: "+msg)
+				} else {
+					fmt.Println("NOTE: unverified code: " + msg)
+				}
+			}
+		}
 		if fr.Vacuous != "" {
 			finfo["vacuous"] = fr.Vacuous
 			undecided = append(undecided, shortKey(fr.Name)+" ["+fr.Tags+"]: VACUOUS: "+fr.Vacuous)
